@@ -348,6 +348,13 @@ func checkC01(in codecInput) []cfinding {
 	var ds []jdiff
 	allDiffs(a, b, nil, &ds)
 	var fs []cfinding
+	// the decoders are functions of the JSON VALUE (that is what the model takes): the same value written with string escapes
+	// in every member name and string decodes to the same thing
+	if v2, err2, pan2 := safeDecode(in.Kind, respellJSON(doc)); pan2 != "" || err2 != nil {
+		fs = append(fs, cfinding{shape: "text-spelling-sensitive", what: fmt.Sprintf("the same document written with string escapes is refused: %v %s", err2, pan2), observed: clip(respellJSON(doc))})
+	} else if out2, err2, pan2 := safeEncode(v2); pan2 != "" || err2 != nil || !bytes.Equal(out2, out) {
+		fs = append(fs, cfinding{shape: "text-spelling-sensitive", what: "the same document written with string escapes decodes to a different value", observed: clip(out2), expected: clip(out)})
+	}
 	esc := false
 	if t, e := parseJV(doc); len(ds) > 0 && e == nil {
 		esc = propertyNameNeedingEscape(t, in.Kind == "SchemaProperties")
@@ -791,4 +798,37 @@ func init() {
 	oracles["C01"], replays["C01"] = oracleC01, replayCodec("C01", checkC01)
 	oracles["C06"], replays["C06"] = oracleC06, replayCodec("C06", checkC06)
 	oracles["C07"], replays["C07"] = oracleC07, replayCodec("C07", checkC07)
+}
+
+// respellJSON writes the first character of every string of a JSON text (member names included) as a \u escape: another
+// text of the same JSON value.
+func respellJSON(b []byte) []byte {
+	out := make([]byte, 0, len(b)+len(b)/4)
+	for i := 0; i < len(b); {
+		if b[i] != '"' {
+			out = append(out, b[i])
+			i++
+			continue
+		}
+		out = append(out, '"')
+		i++
+		first := true
+		for i < len(b) && b[i] != '"' {
+			switch {
+			case b[i] == '\\' && i+1 < len(b):
+				out = append(out, b[i], b[i+1])
+				i += 2
+			case first && b[i] >= 0x20 && b[i] < 0x80:
+				out = append(out, fmt.Sprintf("\\u%04x", b[i])...)
+				i++
+			default:
+				out = append(out, b[i])
+				i++
+			}
+			first = false
+		}
+		out = append(out, '"')
+		i++
+	}
+	return out
 }
